@@ -62,7 +62,7 @@ ObsCall(e) ==
   ELSE /\ ops' = ops @@ (e.op :> [o |-> e.o, dir |-> e.dir, st |-> "run", ret |-> FALSE, err |-> "",
                                    late |-> (e.o \in DOMAIN ost /\ ost[e.o] # "open"),
                                    all |-> e.api = "readall",    \* one operation that moves e.n units
-                                   big |-> e.api = "writetobig"]) \* a datagram too large to send: fails at once
+                                   big |-> e.api \in {"writetobig", "readfromempty"}]) \* a datagram too large to send / a read that meets an empty datagram: fails at once
        /\ UNCHANGED <<kinds, cls, lim, base, ost, csnap, tm, posted, ranp, anomaly, rnext, bad>>
 
 ObsRet(e) ==
